@@ -208,6 +208,9 @@ func refRunRaw(name string, desc sim.ModelDescription, col []float64, maxDim int
 
 // drawColumns draws nSets parameter columns sharing one state-width class.
 func drawColumns(w *simrt.Tape, name string, nSets int) (cols [][]float64, maxDim int) {
+	// models with a variable-length state vector: in 40% of the draws the parameter sets are left
+	// in different width classes
+	mixed := (name == "GR4J" || name == "Lag") && nSets > 1 && w.Bool(40)
 	if domains.IsDimensioned(name) {
 		maxDim = 1 + w.Choose(4) + 1 // usually 2..5 table rows
 		if w.Choose(5) == 4 {
@@ -220,10 +223,21 @@ func drawColumns(w *simrt.Tape, name string, nSets int) (cols [][]float64, maxDi
 			force = maxDim // at least one cell uses the full table, so FindDimensions == maxDim
 		}
 		c := domains.GenParams(w, name, maxDim, force)
-		if j > 0 {
+		if j > 0 && !mixed {
 			domains.ForceStateWidthClass(name, c, domains.StateWidthClass(name, cols[0]))
 		}
 		cols = append(cols, c)
+	}
+	if mixed {
+		// state vectors of different width are supported when the widest comes first (the state
+		// array is sized from cell 0; narrower rows are zero padded)
+		best := 0
+		for j := range cols {
+			if domains.StateWidthClass(name, cols[j]) > domains.StateWidthClass(name, cols[best]) {
+				best = j
+			}
+		}
+		cols[0], cols[best] = cols[best], cols[0]
 	}
 	return
 }
